@@ -46,6 +46,24 @@ func PhZ8()
 func PhZ9()
 func PhZ10()
 
+// Tight placeholders (t_tight_amd64.s): K bytes of placeholder, an INT3, then a neighbour routine.
+func PhTight14()
+func PhTight16()
+func PhTight17()
+func PhTight18()
+func PhTight19()
+func PhTight20()
+func PhTight21()
+func PhTight22()
+func PhTight24()
+func PhTight26()
+func PhTight30()
+
+// TightSizes lists the available tight placeholder sizes.
+var TightSizes = []int{14, 16, 17, 18, 19, 20, 21, 22, 24, 26, 30}
+
+var tightRefs = []func(){PhTight14, PhTight16, PhTight17, PhTight18, PhTight19, PhTight20, PhTight21, PhTight22, PhTight24, PhTight26, PhTight30}
+
 // Shape describes one entry shape.
 type Shape struct {
 	Name string // symbol name of the body is Pkg + Name + ".abi0"
@@ -77,4 +95,4 @@ var Shapes = []*Shape{
 var phRefs = []func(){PhA0, PhA1, PhA2, PhA3, PhA4, PhA5, PhA6, PhA7, PhA8, PhA9, PhA10, PhZ0, PhZ1, PhZ2, PhZ3, PhZ4, PhZ5, PhZ6, PhZ7, PhZ8, PhZ9, PhZ10}
 
 // NumPh reports how many placeholders are linked.
-func NumPh() int { return len(phRefs) }
+func NumPh() int { return len(phRefs) + len(tightRefs) }
